@@ -381,12 +381,24 @@ class C04(PropertyCheck):
                 continue
             pairs.append((r, s))
             n_rand -= 1
-        for i, (r, s) in enumerate(pairs):
-            e = s.expr()
+        # argument-count windows: a callable of k parameters against function values accepting [a, b] arguments
+        for k in range(0, 3):
+            for b in range(0, 4):
+                for a in range(0, b + 1):
+                    pt = rng.choice([prim('int'), prim('str'), gen('T')])
+                    sf = fn(a, [pt] * b, prim('int'))
+                    pairs.append((fn(k, [pt] * k, prim('int')), sf, lambda_expr(sf)))
+                    if a == b and b <= 2:
+                        pairs.append((fn(k, [pt] * k, prim('int')), sf, f'w_f{b}(' + ', '.join([pt.expr()] * b + ['1']) + ')'))
+        for i, pr in enumerate(pairs):
+            r, s = pr[0], pr[1]
+            e = pr[2] if len(pr) > 2 else s.expr()
             term = f'obs_declared {r.coq()} {s.coq()}'
             meta = {'required': r.show(), 'supplied': s.show()}
             positions = [('let', f'let x: {r.xr()} = {e};'), ('output', f'fn r1() -> {r.xr()} {{ {e} }}'),
-                         ('default', f'fn d1(x: {r.xr()} ?= {e}) -> int {{ 0 }}'), ('value-call', f'fn c1(cb: ({r.xr()})->(int)) -> int {{ cb({e}) }}')]
+                         ('default', f'fn d1(x: {r.xr()} ?= {e}) -> int {{ 0 }}'), ('value-call', f'fn c1(cb: ({r.xr()})->(int)) -> int {{ cb({e}) }}'),
+                         ('let-in-lambda', f'let lam = (q: int) -> {{ let x: {r.xr()} = {e}; q }};'),
+                         ('default-of-lambda', f'let lam = (q: int, x: {r.xr()} ?= {e}) -> {{ q }};')]
             for pos, body in positions:
                 add('declared:' + pos, body, None, term, meta)
         # ---------- flexible positions: the callee's / compound's own generics X, Y
@@ -434,8 +446,23 @@ class C04(PropertyCheck):
                 if t.kind == 'gen' and t.name in inst:
                     return inst[t.name]
                 return T(t.kind, t.name, [subst(a) for a in t.args], t.nreq, subst(t.ret) if t.ret else None)
+            def blur(t, p=0.35):
+                if rng.random() < p and t.kind != 'gen':
+                    return UNK
+                if t.kind == 'fn':
+                    return T('fn', None, t.args, t.nreq, blur(t.ret, p))
+                return T(t.kind, t.name, [blur(a, p) for a in t.args], t.nreq, None)
             args = [subst(p) for p in shape]
-            args = [norm(g.mutate(a) if rng.random() < 0.4 else a) for a in args]
+            if rng.random() < 0.6:
+                # every occurrence of a generic gets its own partially-unknown view of the same type
+                def subst_blur(t):
+                    if t.kind == 'gen' and t.name in inst:
+                        return blur(inst[t.name])
+                    if t.kind == 'fn':
+                        return T('fn', None, [subst(a) for a in t.args], t.nreq, subst_blur(t.ret))
+                    return T(t.kind, t.name, [subst_blur(a) for a in t.args], t.nreq, None)
+                args = [subst_blur(p) for p in shape]
+            args = [norm(g.mutate(a) if rng.random() < 0.3 else a) for a in args]
             nopt = rng.choice([0, 0, 1])
             nreq = len(shape) - nopt
             if rng.random() < 0.25:
@@ -513,8 +540,8 @@ class C04(PropertyCheck):
                 f'obs_value_call {f.coq()} {clist(args)}', {'function': f.show(), 'window': [nreq, n], 'arguments': [a.show() for a in args]})
         # ---------- self-check of the expression synthesis: every supplied expression has the intended static type
         seen_types = {}
-        for r, s in pairs:
-            seen_types.setdefault(s.show(), s)
+        for pr in pairs:
+            seen_types.setdefault(pr[1].show(), pr[1])
         jobs = []
         for i, (kind, prog, probe, term, meta) in enumerate(tests):
             jobs.append({'id': f'a{i}', 'src': prog, 'calls': []})
